@@ -357,41 +357,57 @@ def multisigStrip (c : Ctx) : List Bytes → Bytes → R Bytes
       else multisigStrip c sigs code'
     else .ok code
 
-def opCheckMultisig (c : Ctx) (st : St) (verify : Bool) : R St := do
+/-- the arguments of OP_CHECKMULTISIG as popped from the stack -/
+structure MsArgs where
+  keys : List Bytes
+  sigs : List Bytes
+  dummy : Bytes
+  rest : List Bytes
+  nOps : Nat
+
+/-- argument extraction of OP_CHECKMULTISIG: counts, op-count accounting, stack size checks (the extra
+"dummy" element is part of the size check) -/
+def multisigArgs (c : Ctx) (st : St) : R MsArgs :=
   if c.sv == .tapscript then .error .TAPSCRIPT_CHECKMULTISIG else
   match st.stack with
-  | [] => invalidStack
+  | [] => .error .INVALID_STACK_OPERATION
   | nk :: s1 =>
-    let nKeys ← decodeNum nk c.flags.minimaldata
-    let nKeys := clampInt nKeys
-    if nKeys < 0 || nKeys > (MAX_PUBKEYS_PER_MULTISIG : Int) then .error .PUBKEY_COUNT else
-    let nKeys := nKeys.toNat
-    let nOps := st.nOps + nKeys
-    if nOps > MAX_OPS_PER_SCRIPT then .error .OP_COUNT else
-    if s1.length < nKeys + 1 then invalidStack else
-    let keys := s1.take nKeys
-    match s1.drop nKeys with
-    | [] => invalidStack
-    | ns :: s2 =>
-      let nSigs ← decodeNum ns c.flags.minimaldata
-      let nSigs := clampInt nSigs
-      if nSigs < 0 || nSigs > (nKeys : Int) then .error .SIG_COUNT else
-      let nSigs := nSigs.toNat
-      if s2.length < nSigs + 1 then invalidStack else
-      let sigs := s2.take nSigs
-      let s3 := s2.drop nSigs
-      let code ← multisigStrip c sigs st.code
-      let success ← multisigLoop c code (nKeys + nSigs + 1) sigs keys
-      if !success && c.flags.nullfail && sigs.any (fun s => !s.isEmpty) then .error .NULLFAIL else
-      -- the extra (dummy) element
-      match s3 with
-      | [] => invalidStack
-      | dummy :: s4 =>
-        if c.flags.nulldummy && !dummy.isEmpty then .error .SIG_NULLDUMMY else
-        if verify then
-          if success then .ok { st with stack := s4, nOps := nOps }
-          else .error .CHECKMULTISIGVERIFY
-        else .ok { st with stack := boolBytes success :: s4, nOps := nOps }
+    match decodeNum nk c.flags.minimaldata with
+    | .error e => .error e
+    | .ok nKeys =>
+      let nKeys := clampInt nKeys
+      if nKeys < 0 || nKeys > (MAX_PUBKEYS_PER_MULTISIG : Int) then .error .PUBKEY_COUNT else
+      let nKeys := nKeys.toNat
+      let nOps := st.nOps + nKeys
+      if nOps > MAX_OPS_PER_SCRIPT then .error .OP_COUNT else
+      if s1.length < nKeys + 1 then .error .INVALID_STACK_OPERATION else
+      match s1.drop nKeys with
+      | [] => .error .INVALID_STACK_OPERATION
+      | ns :: s2 =>
+        match decodeNum ns c.flags.minimaldata with
+        | .error e => .error e
+        | .ok nSigs =>
+          let nSigs := clampInt nSigs
+          if nSigs < 0 || nSigs > (nKeys : Int) then .error .SIG_COUNT else
+          let nSigs := nSigs.toNat
+          match s2.drop nSigs with
+          | [] => .error .INVALID_STACK_OPERATION
+          | dummy :: s4 =>
+            .ok { keys := s1.take nKeys, sigs := s2.take nSigs, dummy := dummy, rest := s4, nOps := nOps }
+
+/-- after the signature loop: NULLFAIL, NULLDUMMY, result -/
+def multisigFinish (c : Ctx) (st : St) (a : MsArgs) (success verify : Bool) : R St :=
+  if !success && c.flags.nullfail && a.sigs.any (fun s => !s.isEmpty) then .error .NULLFAIL else
+  if c.flags.nulldummy && !a.dummy.isEmpty then .error .SIG_NULLDUMMY else
+  if verify then
+    if success then .ok { st with stack := a.rest, nOps := a.nOps } else .error .CHECKMULTISIGVERIFY
+  else .ok { st with stack := boolBytes success :: a.rest, nOps := a.nOps }
+
+def opCheckMultisig (c : Ctx) (st : St) (verify : Bool) : R St :=
+  multisigArgs c st >>= fun a =>
+  multisigStrip c a.sigs st.code >>= fun code =>
+  multisigLoop c code (a.keys.length + a.sigs.length + 1) a.sigs a.keys >>= fun success =>
+  multisigFinish c st a success verify
 
 /-- `OP_IF` / `OP_NOTIF` -/
 def opIf (c : Ctx) (st : St) (isNotIf : Bool) : R St :=
